@@ -359,6 +359,31 @@ func ruleShimChannels(c *Ctx, p *Prog, ruleC, ruleB string) {
 			}
 			c.Check(ruleC, key, p, closes[0].Instr.Pos(), reason == "", "sole-sender-closes / once-closed discipline holds", "channel "+sc.Field+": "+reason+" — the shim handlers run in the agent's own worker goroutines (no recover), so the panic kills the agent")
 		}
+		// who may receive: the server-to-client queue is read by polls only, the client-to-server
+		// queue by the writer goroutine only. Any other receiver (a drain "to free a blocked
+		// reader", a peek) takes messages away from the side they were sent to.
+		if sc.Field == "serverMessages" || sc.Field == "clientMessages" {
+			stray := ""
+			nrecv := 0
+			for _, op := range sc.Ops {
+				if op.Kind != "recv" {
+					continue
+				}
+				nrecv++
+				own := Owner(op.Instr)
+				switch sc.Field {
+				case "serverMessages":
+					if FuncName(own) != "agent/websockets.(*Connection).ReadServerMessages" {
+						stray = "received from in " + FuncName(own) + " at " + p.Pos(op.Instr.Pos())
+					}
+				case "clientMessages":
+					if !goBodyOnce(own) || len(Calls(own, "(*github.com/gorilla/websocket.Conn).WriteMessage")) == 0 {
+						stray = "received from in " + FuncName(own) + " at " + p.Pos(op.Instr.Pos())
+					}
+				}
+			}
+			c.Check(ruleC, "Connection."+sc.Field+":sole-receiver", p, posOfOps(sc.Ops), stray == "" && nrecv > 0, "the queue has one receiving side (polls / the writer goroutine)", "channel "+sc.Field+" is "+stray+": messages taken there never reach the side they were sent to (e.g. a drain after the backend closed discards what the client has not polled yet)")
+		}
 		// blocking sends in non-goroutine code
 		for k, s := range sends {
 			fn := s.Fn
@@ -1231,4 +1256,162 @@ func ruleNoDeferredCancelOnReturnedResponse(c *Ctx, p *Prog, rule string, pkgs .
 	if n == 0 {
 		c.Unk(rule, "no-deferred-cancel:functions", p, 0, "no function returning *http.Response found in "+strings.Join(pkgs, ","))
 	}
+}
+
+// ruleNoServerDeadlines: the stand-alone proxy's HTTP server arms no per-connection write or
+// read deadline (http.Server.WriteTimeout / ReadTimeout, http.TimeoutHandler is C02.T). A
+// write deadline is fixed when the request header has been read: a pending-list poll that
+// waited longer than the deadline still takes the next request ID from the rendezvous
+// channel and then fails to write it — the ID was offered once and is lost; a streamed
+// response that lasts longer is cut.
+func ruleNoServerDeadlines(c *Ctx, p *Prog, rule string) {
+	n := 0
+	bad := ""
+	for _, fn := range p.AllFuncsIn("server") {
+		EachInstrRaw(fn, func(i ssa.Instruction) {
+			al, ok := i.(*ssa.Alloc)
+			if !ok || NamedType(al.Type()) != "net/http.Server" {
+				return
+			}
+			n++
+			for _, fld := range []string{"WriteTimeout", "ReadTimeout"} {
+				for _, u := range Refs(al) {
+					fa, isFA := u.(*ssa.FieldAddr)
+					if !isFA || fieldName(fa.X.Type(), fa.Field) != fld {
+						continue
+					}
+					for _, w := range Refs(fa) {
+						if st, isSt := w.(*ssa.Store); isSt && st.Addr == ssa.Value(fa) {
+							if k, isC := ConstInt(st.Val); !isC || k != 0 {
+								bad = fld + " is set on the http.Server at " + p.Pos(st.Pos())
+							}
+						}
+					}
+				}
+			}
+		})
+	}
+	c.Check(rule, "server:no-connection-deadlines", p, 0, bad == "", fmt.Sprintf("the proxy serves without per-connection read/write deadlines (%d http.Server value(s) inspected; http.Serve arms none)", n), bad+": the deadline is armed when the request header is read, so a pending-list poll that waited longer still receives the next request ID from the rendezvous channel and cannot write it — that client request is never forwarded — and long uploads/streamed responses are cut")
+}
+
+// ruleCheckThenActOneHold: in fn (with its transparent helpers) the miss of a cache lookup
+// and the insertion that answers it happen under ONE hold of the mutex: no release of the
+// lock lies between `Get` and `Add` of the same LRU. Two critical sections that are each
+// locked make every access race-free and still let two activations both miss and both
+// insert — the later insert replaces the earlier value (a session split over two jars).
+func ruleCheckThenActOneHold(c *Ctx, p *Prog, rule, fnName string) {
+	fn := c.need(p, rule, fnName)
+	if fn == nil {
+		return
+	}
+	const get, add = "(*github.com/golang/groupcache/lru.Cache).Get", "(*github.com/golang/groupcache/lru.Cache).Add"
+	gets, adds := Calls(fn, get), Calls(fn, add)
+	if len(gets) == 0 || len(adds) == 0 {
+		c.Unk(rule, "lru:miss-and-insert-under-one-hold", p, fn.Pos(), "no lru Get/Add pair found in "+fnName)
+		return
+	}
+	isUnlock := func(i ssa.Instruction) bool {
+		if _, isDefer := i.(*ssa.Defer); isDefer {
+			return false
+		}
+		if IsCall(i, "(*sync.Mutex).Unlock", "(*sync.RWMutex).Unlock", "(*sync.RWMutex).RUnlock") {
+			return true
+		}
+		// leaving a function that deferred an unlock releases the lock there
+		if _, isRD := i.(*ssa.RunDefers); isRD {
+			rel := false
+			EachInstrRaw(i.Parent(), func(j ssa.Instruction) {
+				if d, isD := j.(*ssa.Defer); isD {
+					switch CalleeName(&d.Call) {
+					case "(*sync.Mutex).Unlock", "(*sync.RWMutex).Unlock", "(*sync.RWMutex).RUnlock":
+						rel = true
+					}
+				}
+			})
+			// the deferred unlock of fn itself runs when fn returns: after the Add
+			return rel && i.Parent() != fn
+		}
+		return false
+	}
+	bad := ""
+	for _, g := range gets {
+		isAdd := func(i ssa.Instruction) bool {
+			for _, a := range adds {
+				if i == a {
+					return true
+				}
+			}
+			return false
+		}
+		// a release reachable from the lookup before any insertion, after which an insertion is reachable
+		rel, _ := (&Walk{Target: isUnlock, Avoid: isAdd, Ctx: fn}).FromInstr(g)
+		if rel == nil {
+			continue
+		}
+		if again, _ := (&Walk{Target: isAdd, Ctx: fn}).FromInstr(rel); again != nil {
+			bad = "the lock is released at " + p.Pos(rel.Pos()) + " between the lookup at " + p.Pos(g.Pos()) + " and the insertion at " + p.Pos(again.Pos())
+		}
+	}
+	c.Check(rule, "lru:miss-and-insert-under-one-hold", p, fn.Pos(), bad == "", "the lookup that misses and the insertion that follows run under one hold of the cache mutex", bad+": two concurrent requests of one session can both miss and both insert — the later insertion replaces the earlier jar and the cookies stored in it are lost")
+}
+
+// rulePollErrorOnlyWhenDrained: ReadServerMessages reports an error only on the not-ok
+// branch of a receive from serverMessages, i.e. when the reader goroutine has closed the
+// queue and everything it had queued was delivered. Any other test for "closed" (the done
+// context, the closed flag) fires while messages received before the close are still
+// queued: the poll answers 400, the endpoint forgets the session and they are lost.
+func rulePollErrorOnlyWhenDrained(c *Ctx, p *Prog, rule string) {
+	f := c.need(p, rule, "agent/websockets.(*Connection).ReadServerMessages")
+	if f == nil {
+		return
+	}
+	bad := ""
+	n := 0
+	for _, r := range Returns(f) {
+		ev := ReturnValue(r, 1)
+		if ev == nil || IsNilConst(ev) {
+			continue
+		}
+		n++
+		ok := false
+		for _, g := range GuardingIfs(r) {
+			cond, trueSucc := BoolTest(g.If)
+			e, isE := cond.(*ssa.Extract)
+			if !isE {
+				continue
+			}
+			okIdx := false
+			var ch ssa.Value
+			switch t := e.Tuple.(type) {
+			case *ssa.UnOp:
+				if t.Op == token.ARROW && t.CommaOk && e.Index == 1 {
+					okIdx, ch = true, t.X
+				}
+			case *ssa.Select:
+				// comma-ok of a receive state: index 1 is recvOk of the chosen state
+				if e.Index == 1 {
+					for _, st := range t.States {
+						if st.Dir == types.RecvOnly {
+							if _, fld, isF := FieldLoad(Roots(st.Chan)[0]); isF && fld == "serverMessages" {
+								okIdx, ch = true, st.Chan
+							}
+						}
+					}
+				}
+			}
+			if !okIdx || ch == nil {
+				continue
+			}
+			if _, fld, isF := FieldLoad(Roots(ch)[0]); !isF || fld != "serverMessages" {
+				continue
+			}
+			if g.Succ != trueSucc {
+				ok = true
+			}
+		}
+		if !ok {
+			bad = "the error return at " + p.Pos(r.Pos())
+		}
+	}
+	c.Check(rule, "poll:error-only-when-queue-closed-and-drained", p, f.Pos(), bad == "" && n > 0, "ReadServerMessages returns an error only on the not-ok branch of a receive from serverMessages (queue closed by the reader and empty)", bad+" is not on the not-ok branch of a receive from serverMessages: the session is reported closed while messages received before the backend closed are still queued — they are never delivered")
 }
